@@ -25,7 +25,7 @@ from .asttypes import (
     _slice,
 )
 
-from .astutil import bistr
+from .astutil import bistr, compare_asts
 
 from .common import NodeError, astfield
 
@@ -63,6 +63,7 @@ def _reparse_raw_base(
     mode: Mode | None = None,
     first_lineno: int = 0,  # should only be non-zero if we wish to apply column delta to it
     first_line_col_delta: int = 0,
+    scaffold: bool = False,  # `copy_lines` is a synthetic wrapper around a single statementlike, not the whole source
 ) -> fst.FST:
     """Actually do the reparse. If `mode` is `None` then will just try a normal `'exec'` parse and fail if that fails.
     Otherwise it will try this mode first, then all other parse modes as it is assumed to be a non-top-level
@@ -96,14 +97,18 @@ def _reparse_raw_base(
         if not copy:
             raise _ReparseAll
 
-        if set_ast:
+        if not scaffold:  # whole source was reparsed but only the node at path is taken, the rest of the tree is kept so it must not have changed (an element split in two, parentheses closed early, ...)
+            if not compare_asts(copy_root.a, root.a, skip1={copy.a}, skip2={self.a}):
+                raise _ReparseAll
+
+        elif set_ast:
             if copy.col != self.col:  # statement moved to a different column, alone that is fine but not among its siblings
                 raise _ReparseAll
 
         elif copy.a.__class__ is not self.a.__class__:  # only block header reparsed and the old body will be reused, must still be same kind of block
             raise _ReparseAll
 
-        if not isinstance(path, str):  # the reparsed source must give exactly one node at each level of the path, otherwise the statement was split or something following it was pulled in or pushed out
+        if scaffold and not isinstance(path, str):  # the reparsed source must give exactly one node at each level of the path, otherwise the statement was split or something following it was pulled in or pushed out
             a = copy_root.a
 
             for name, idx in path:
@@ -264,7 +269,7 @@ def _reparse_raw_stmtlike(self: fst.FST, new_lines: list[str], ln: int, col: int
         copy_lines[pend_ln] = bistr(copy_lines[pend_ln][:pend_col])
 
         _reparse_raw_base(stmtlike, new_lines, ln, col, end_ln, end_col, copy_lines, path, True, None,
-                          first_lineno, first_line_col_delta)
+                          first_lineno, first_line_col_delta, True)
 
         if is_elif:  # nuking a whole elif will parse but can do bad things to end positions
             stmtlike._set_end_pos((a := stmtlike.a).end_lineno, a.end_col_offset)  # setting own position to what it currently is but will also propagate up the tree
@@ -296,7 +301,7 @@ def _reparse_raw_stmtlike(self: fst.FST, new_lines: list[str], ln: int, col: int
             copy_lines.append(bistr(indent + 'except* Exception: pass'))
 
     copy = _reparse_raw_base(stmtlike, new_lines, ln, col, end_ln, end_col, copy_lines, path, False, None,
-                             first_lineno, first_line_col_delta)
+                             first_lineno, first_line_col_delta, True)
     copya = copy.a
 
     if not is_match_case:  # match_case doesn't have AST location
@@ -356,8 +361,17 @@ def _reparse_raw(self: fst.FST, code: Code | None, ln: int, col: int, end_ln: in
         if self is not root and self.parent.a.__class__ in ASTS_LEAF_FTSTR:  # reparsing a direct child of one of these alone is problematic because they may create or destroy self-documenting debug Constant nodes
             self = self.parent
 
-        _reparse_raw_base(self, new_lines, ln, col, end_ln, end_col, root._lines[:],  # fallback to reparse all source
-                          None if self is root else root.child_path(self), True, mode)
+        try:
+            _reparse_raw_base(self, new_lines, ln, col, end_ln, end_col, root._lines[:],  # fallback to reparse all source
+                              None if self is root else root.child_path(self), True, mode)
+
+        except _ReparseAll:  # nothing at the path of the node any more, the root itself changes
+            mode = root.a.__class__
+
+            if mode is not Slice and (base := mode.__bases__[0]) not in (AST, mod, ExceptHandler, _slice):
+                mode = base
+
+            _reparse_raw_base(root, new_lines, ln, col, end_ln, end_col, root._lines[:], None, True, mode)
 
     if len(new_lines) == 1:
         return ln, col + len(new_lines[0])
